@@ -192,6 +192,12 @@ impl SubCheck for Reader {
             prop_oneof![
                 5 => g,
                 5 => m,
+                // fraction digits that repeat the date, the ordinal date or the clock time of the same string
+                1 => (0i64..=9999, 1u32..=12, 1u32..=28, 0u32..24, 0u32..60, 0u32..60, 0u8..4, "[0-9]{0,3}", proptest::sample::select(vec!["Z", "+00:00", "-08:00", "+05:30"])).prop_map(|(y, m, d, h, mi, s, k, tail, off)| {
+                    let ord = cal::ordinal(cal::days_from_civil(y, m, d));
+                    let frac = match k { 0 => format!("{y:04}{m:02}{d:02}"), 1 => format!("{y:04}{ord:03}"), 2 => format!("{h:02}{mi:02}{s:02}"), _ => format!("{m:02}{d:02}{h:02}") };
+                    format!("{y:04}-{m:02}-{d:02}T{h:02}:{mi:02}:{s:02}.{frac}{tail}{off}")
+                }),
                 1 => ".{0,40}",
                 2 => "[0-9]{4}-[01][0-9]-[0-3][0-9][Tt ][0-2][0-9]:[0-6][0-9]:[0-6][0-9](\\.[0-9]{0,12})?(Z|z|[+\\-−][0-2][0-9]:[0-6][0-9])",
                 1 => "[0-9]{1,5}-[0-9]{1,3}-[0-9]{1,3}[Tt ]?[0-9]{1,3}:[0-9]{1,3}(:[0-9]{1,3})?(Z|[+-][0-9]{1,4}:?[0-9]{0,2})?",
